@@ -1,4 +1,10 @@
-"""C07 — data stay aligned with the geometry they are attached to (pairing, ordering, length case split)."""
+"""C07 — data stay aligned with the geometry they are attached to (pairing, ordering, length case split).
+
+The rules look at NORMALISED functions (`ctx.view`: private helpers expanded, hoisted constants substituted) and decide by
+path facts and by what locals are bound from (sa/rules/_c07_util.py), not by the spelling or nesting of the code:
+guard clauses vs nested ifs, De Morgan, values read once into a local, renamed locals, extracted helpers, keyword vs
+positional arguments, loops over a filtered comprehension give the same verdicts.
+"""
 
 from __future__ import annotations
 
@@ -8,8 +14,11 @@ from ..cfg import CFG
 from ..kinds import has_call, reach
 from ..model import AnalysisError, unparse
 from ..report import RuleResult
+from ._c07_util import (KEEP_ORDER, KEEP_SET, call_arg, dependence_leaves, derived_names, enclosing_ifs, falls_off, fname, name_defs, reach3,
+                        real_defs, tv3, unfold_filtered_loops, unknown_leaves, xp, xt)
 
 ASSOC = {"vertices": "VERTEX", "cells": "CELL"}
+DELETE = ("np.delete", "numpy.delete")
 
 
 def _targets(p):
@@ -24,29 +33,37 @@ def _targets(p):
     return out
 
 
-def _defs(fn):
-    d = {}
-    for n in ast.walk(fn.node):
-        if isinstance(n, ast.Assign) and len(n.targets) == 1 and isinstance(n.targets[0], ast.Name):
-            d.setdefault(n.targets[0].id, []).append(n.value)
-    return d
-
-
-def _is_shrink(expr, geom, defs, depth=0) -> bool:
-    """The value is the geometry with rows removed: np.delete(self.<geom>, ...) or self.<geom>[<mask>, ...]."""
-    if depth > 3:
+def _is_shrink(expr, geom, fn_node, defs, depth=0) -> bool:
+    """The value is the geometry with rows removed: np.delete(self.<geom>, ...) or self.<geom>[<boolean keep-mask>, ...]
+    (the geometry possibly read through a local, the result possibly held in a local)."""
+    if depth > 4:
         return False
     if isinstance(expr, ast.Name):
-        return any(_is_shrink(d, geom, defs, depth + 1) for d in defs.get(expr.id, []))
-    if isinstance(expr, ast.Call) and unparse(expr.func) == "np.delete" and expr.args and unparse(expr.args[0]) == f"self.{geom}":
-        return True
-    if isinstance(expr, ast.Subscript) and unparse(expr.value) == f"self.{geom}":
+        return any(_is_shrink(d, geom, fn_node, defs, depth + 1) for d in defs.get(expr.id, []))
+    if isinstance(expr, ast.Call) and fname(expr) in DELETE:
+        arr = call_arg(expr, 0, "arr")
+        return arr is not None and xt(arr, fn_node) == f"self.{geom}"
+    if isinstance(expr, ast.Subscript) and xt(expr.value, fn_node) == f"self.{geom}":
         s = expr.slice
-        first = s.elts[0] if isinstance(s, ast.Tuple) else s
-        if isinstance(first, ast.Name):
-            # a boolean keep-mask built locally (np.ones(..., dtype=bool); mask[indices] = False)
-            return any("dtype=bool" in unparse(d) or "bool" in unparse(d) for d in defs.get(first.id, []))
+        first = s.elts[0] if isinstance(s, ast.Tuple) and s.elts else s
+        # a boolean keep-mask built locally (np.ones(..., dtype=bool); mask[indices] = False)
+        return _is_bool_mask(first, defs)
     return False
+
+
+def _is_bool_mask(expr, defs, depth=0) -> bool:
+    if depth > 4:
+        return False
+    if isinstance(expr, ast.Name):
+        return any("bool" in unparse(d) or _is_bool_mask(d, defs, depth + 1) for d in defs.get(expr.id, []) if not isinstance(d, ast.Constant))
+    return False
+
+
+def _rcv_signature(p):
+    rcv = p.func("ObjectBase.remove_children_values")
+    if len(rcv.params) < 3:
+        raise AnalysisError("ObjectBase.remove_children_values(indices, association): signature changed")
+    return rcv, rcv.params[1], rcv.params[2]
 
 
 def rule_pair(ctx) -> RuleResult:
@@ -59,68 +76,148 @@ def rule_pair(ctx) -> RuleResult:
         floor=5,
     )
     p = ctx.p
-    for fn in _targets(p):
-        defs = _defs(fn)
+    rcv0, ind, assoc = _rcv_signature(p)
+    for fn0 in _targets(p):
+        fn = ctx.view(fn0)
+        defs = name_defs(fn.node)
         g = CFG(fn.node)
         idx_param = fn.params[1]
+        _, same_indices = derived_names(fn.node, idx_param, KEEP_SET)
         for node in g.nodes:
             if node.kind != "stmt" or not isinstance(node.ast, ast.Assign):
                 continue
-            t = node.ast.targets[0]
-            if not (isinstance(t, ast.Attribute) and unparse(t.value) == "self" and t.attr in ASSOC):
-                continue
-            geom = t.attr
-            if not _is_shrink(node.ast.value, geom, defs):
-                res.inst(f"{fn.qualname}:{node.lineno} self.{geom} = {unparse(node.ast.value)[:40]} (re-indexing, not a shrink)")
-                continue
-            want = ASSOC[geom]
+            for t in node.ast.targets:
+                if not (isinstance(t, ast.Attribute) and unparse(t.value) == "self" and t.attr in ASSOC):
+                    continue
+                geom = t.attr
+                if not _is_shrink(node.ast.value, geom, fn.node, defs):
+                    res.inst(f"{fn.qualname}:{node.lineno} self.{geom} = {unparse(node.ast.value)[:40]} (re-indexing, not a shrink)")
+                    continue
+                want = ASSOC[geom]
 
-            def trims(n, want=want):
-                def pred(c):
-                    if not (isinstance(c.func, ast.Attribute) and c.func.attr == "remove_children_values" and unparse(c.func.value) == "self" and len(c.args) >= 2):
-                        return False
-                    return isinstance(c.args[1], ast.Constant) and c.args[1].value == want and unparse(c.args[0]) == idx_param
-                return has_call(n, pred)
+                def trims(n, want=want):
+                    def pred(c):
+                        if not (isinstance(c.func, ast.Attribute) and c.func.attr == "remove_children_values" and unparse(c.func.value) in ("self", "super()")):
+                            return False
+                        a_idx, a_assoc = call_arg(c, 0, ind), call_arg(c, 1, assoc)
+                        if a_idx is None or a_assoc is None:
+                            return False
+                        a_assoc = xp(a_assoc, fn.node)
+                        return isinstance(a_assoc, ast.Constant) and a_assoc.value == want and same_indices(a_idx)
+                    return has_call(n, pred)
 
-            after = reach(g, [m for m, _ in node.succ], avoid=trims)
-            ok = g.exit not in after
-            res.inst(f"{fn.qualname}:{node.lineno} shrink of self.{geom} followed by remove_children_values({idx_param}, {want!r})", nontrivial=True, ok=ok)
-            if not ok:
-                wrong = [unparse(c)[:60] for n in g.nodes if n.ast is not None and not isinstance(n.ast, list) for c in ast.walk(n.ast)
-                         if isinstance(c, ast.Call) and isinstance(c.func, ast.Attribute) and c.func.attr == "remove_children_values"]
-                res.find(fn.cls.name, fn.name, f"shrink of self.{geom} not followed by remove_children_values({idx_param}, {want!r})",
-                         f"{fn.module.relpath}:{node.lineno}",
-                         f"after removing {geom} the {want}-associated data keep their old length (calls seen: {wrong or 'none'}): values no longer line up with the geometry")
-    rcv = p.func("ObjectBase.remove_children_values")
-    ind, assoc = rcv.params[1], rcv.params[2]
-    # roles: child = the loop variable over self.children; values = the local the child's stored array is read into
-    from ..roles import bound_from, canon
-    rr = {lp.target.id: "child" for lp in ast.walk(rcv.node) if isinstance(lp, ast.For) and isinstance(lp.target, ast.Name) and unparse(lp.iter).endswith(".children")}
-    rr.update({nm: "values" for nm in bound_from(rcv.node, lambda e: "_values" in unparse(e) or "fetch_values" in unparse(e))})
-    unparse_r = lambda n: canon(n, rr)  # noqa: E731
-    tests = [unparse_r(i.test) for i in ast.walk(rcv.node) if isinstance(i, ast.If)]
-    ok = any(f"child.association.name == {assoc}" in t for t in tests)
+                after = reach(g, [m for m, _ in node.succ], avoid=trims)
+                ok = g.exit not in after
+                res.inst(f"{fn.qualname}:{node.lineno} shrink of self.{geom} followed by remove_children_values({idx_param}, {want!r})", nontrivial=True, ok=ok)
+                if not ok:
+                    wrong = [unparse(c)[:60] for n in g.nodes if n.ast is not None and not isinstance(n.ast, list) for c in ast.walk(n.ast)
+                             if isinstance(c, ast.Call) and isinstance(c.func, ast.Attribute) and c.func.attr == "remove_children_values"]
+                    res.find(fn.cls.name, fn.name, f"shrink of self.{geom} not followed by remove_children_values({idx_param}, {want!r})",
+                             f"{fn.module.relpath}:{node.lineno}",
+                             f"after removing {geom} the {want}-associated data keep their old length (calls seen: {wrong or 'none'}): values no longer line up with the geometry")
+    _pair_children(ctx, res, rcv0, ind, assoc)
+    return res
+
+
+def _pair_children(ctx, res, rcv0, ind, assoc):
+    """ObjectBase.remove_children_values: which children reach the edit, and what the edit stores."""
+    p = ctx.p
+    rcv = ctx.view(rcv0)
+    node = unfold_filtered_loops(rcv.node)
+    g = CFG(node)
+    defs = name_defs(node)
+    _, same_indices = derived_names(node, ind, KEEP_SET)
+    # the loop(s) over the children; child = the loop variable
+    loops = [lp for lp in ast.walk(node) if isinstance(lp, ast.For) and isinstance(lp.target, ast.Name) and xt(lp.iter, node).endswith(".children")]
+    sites = []  # (child name, body entry nodes, nodes of the loop that store into an attribute of the child)
+    for lp in loops:
+        child = lp.target.id
+        head = next((n for n in g.nodes if n.kind == "fornext" and n.stmt is lp), None)
+        if head is None:
+            continue
+        starts = [m for m, lab in head.succ if lab == "loop"]
+        body = reach3(g, starts, lambda t: None, avoid=lambda n, head=head: n is head)
+        edits = [n for n in body if n.kind == "stmt" and isinstance(n.ast, ast.Assign) and any(
+            isinstance(t, ast.Attribute) and isinstance(t.value, ast.Name) and t.value.id == child for t in n.ast.targets)]
+        sites.append((child, lp, starts, edits))
+
+    def atom(e, child, facts):
+        if isinstance(e, ast.Compare) and len(e.ops) == 1 and isinstance(e.ops[0], (ast.Eq, ast.NotEq, ast.Is, ast.IsNot)):
+            for a, b in ((e.left, e.comparators[0]), (e.comparators[0], e.left)):
+                by_name = unparse(a) == f"{child}.association.name" and isinstance(b, ast.Name) and b.id == assoc
+                member = unparse(a) == f"{child}.association" and (
+                    (isinstance(b, ast.Subscript) and unparse(b.slice) == assoc and unparse(b.value).endswith("DataAssociationEnum"))
+                    or (isinstance(b, ast.Call) and fname(b) == "getattr" and len(b.args) == 2 and unparse(b.args[1]) == assoc
+                        and unparse(b.args[0]).endswith("DataAssociationEnum")))
+                if (by_name or member) and facts.get("same") is not None:
+                    return facts["same"] if isinstance(e.ops[0], (ast.Eq, ast.Is)) else not facts["same"]
+            return None
+        if isinstance(e, ast.Call) and fname(e) == "isinstance" and len(e.args) == 2 and unparse(e.args[0]) == child:
+            vals = [facts.get("isa:" + nm) for nm in _class_names(e.args[1])]
+            if any(v is True for v in vals):
+                return True
+            return False if vals and all(v is False for v in vals) else None
+        return None
+
+    def edit_reached(child, starts, edits, facts):
+        seen = reach3(g, starts, lambda t: tv3(xp(t, node), lambda a: atom(a, child, facts)))
+        return any(e in seen for e in edits)
+
+    # 1. a child of another association never reaches the edit
+    ok = bool(sites) and all(not edit_reached(child, starts, edits, {"same": False}) for child, _, starts, edits in sites)
     res.inst(f"remove_children_values filters children on `child.association.name == {assoc}`", ok=ok)
     if not ok:
         res.find("ObjectBase", "remove_children_values", "association filter changed", rcv.where, "data of the other association are trimmed too (or none are)")
-    for i in [x for x in ast.walk(rcv.node) if isinstance(x, ast.If) and "association.name" in unparse_r(x.test)]:
-        conj = i.test.values if isinstance(i.test, ast.BoolOp) and isinstance(i.test.op, ast.And) else [i.test]
-        for c in conj:
-            if isinstance(c, ast.Call) and unparse(c.func) == "isinstance" and unparse_r(c.args[0]) == "child":
-                names = [unparse(x) for x in (c.args[1].elts if isinstance(c.args[1], ast.Tuple) else [c.args[1]])]
-                narrow = [nm for nm in names if nm != "Data"]
-                ok = not narrow
-                res.inst(f"remove_children_values: class filter isinstance(child, {names})", ok=ok)
-                if not ok:
-                    res.find("ObjectBase", "remove_children_values", f"children filtered by class {narrow}", f"{rcv.module.relpath}:{c.lineno}",
-                             f"only {narrow} children are trimmed: data of the other kinds (text, ...) keep their old length after a geometry removal")
-    asg = [a for a in ast.walk(rcv.node) if isinstance(a, ast.Assign) and unparse_r(a.targets[0]) == "child.values"]
-    ok = bool(asg) and all(unparse_r(a.value).replace(" ", "") == f"np.delete(values,{ind},axis=0)" for a in asg)
+    # 2. no narrower class than Data is required to reach the edit
+    wide = {"Data"} | {c if isinstance(c, str) else c.name for c in p.cls("Data").mro}
+    for child, lp, starts, edits in sites:
+        tests = [c for c in ast.walk(lp) if isinstance(c, ast.Call) and fname(c) == "isinstance" and len(c.args) == 2 and unparse(c.args[0]) == child]
+        names = sorted({nm for c in tests for nm in _class_names(c.args[1])})
+        if not names or not edits:
+            continue
+        facts = {"same": True}
+        facts.update({"isa:" + nm: False for nm in names if nm not in wide})
+        narrow = []
+        if not edit_reached(child, starts, edits, facts):
+            # the smallest set of classes whose absence already keeps the child from the edit
+            for nm in [n for n in names if n not in wide]:
+                trial = {k: v for k, v in facts.items() if k != "isa:" + nm}
+                if edit_reached(child, starts, edits, trial):
+                    narrow.append(nm)
+                else:
+                    facts = trial
+        ok = not narrow
+        res.inst(f"remove_children_values: class filter isinstance(child, {names})", ok=ok)
+        if not ok:
+            at = next((c.lineno for c in tests if set(_class_names(c.args[1])) & set(narrow)), lp.lineno)
+            res.find("ObjectBase", "remove_children_values", f"children filtered by class {narrow}", f"{rcv.module.relpath}:{at}",
+                     f"only {narrow} children are trimmed: data of the other kinds (text, ...) keep their old length after a geometry removal")
+
+    # 3. the edit: <child>.values = np.delete(<the child's stored values>, <the indices>, axis=0)
+    def stored_values(e, child):
+        cands = real_defs(defs, e.id) if isinstance(e, ast.Name) else [e]
+        return bool(cands) and all(("_values" in unparse(c) or "fetch_values" in unparse(c)) and any(
+            isinstance(x, ast.Name) and x.id == child for x in ast.walk(c)) for c in cands)
+
+    def trimmed(v, child):
+        v = xp(v, node)
+        if not (isinstance(v, ast.Call) and fname(v) in DELETE):
+            return False
+        arr, obj, axis = call_arg(v, 0, "arr"), call_arg(v, 1, "obj"), call_arg(v, 2, "axis")
+        if arr is None or obj is None or not (isinstance(axis, ast.Constant) and axis.value == 0 and axis.value is not False):
+            return False
+        return stored_values(arr, child) and same_indices(obj)
+
+    asg = [(child, n.ast) for child, _, _, edits in sites for n in edits if any(isinstance(t, ast.Attribute) and t.attr == "values" for t in n.ast.targets)]
+    ok = bool(asg) and all(trimmed(a.value, child) for child, a in asg)
     res.inst(f"remove_children_values assigns child.values = np.delete(values, {ind}, axis=0)", ok=ok)
     if not ok:
         res.find("ObjectBase", "remove_children_values", "values are not trimmed with the given indices through the setter", rcv.where,
                  "the trimmed values are not stored (or not persisted)")
-    return res
+
+
+def _class_names(e) -> list:
+    return [unparse(x) for x in (e.elts if isinstance(e, ast.Tuple) else [e])]
 
 
 def rule_order(ctx) -> RuleResult:
@@ -131,9 +228,10 @@ def rule_order(ctx) -> RuleResult:
         floor=3,
     )
     p = ctx.p
-    for fn in _targets(p):
+    for fn0 in _targets(p):
+        fn = ctx.view(fn0)
         g = CFG(fn.node)
-        stores = [n for n in g.nodes if n.kind == "stmt" and isinstance(n.ast, (ast.Assign, ast.AugAssign)) and any(
+        stores = [n for n in g.nodes if n.kind == "stmt" and isinstance(n.ast, (ast.Assign, ast.AugAssign, ast.AnnAssign)) and any(
             isinstance(x, ast.Attribute) and isinstance(x.ctx, ast.Store) and unparse(x.value) == "self" for x in ast.walk(n.ast))]
         bad = []
         for s in stores:
@@ -148,6 +246,37 @@ def rule_order(ctx) -> RuleResult:
     return res
 
 
+def _length_scenarios(fl):
+    """Evaluation of format_length's conditions under a stated ordering of the value length L = len(values) against the
+    expected count N = self.n_values (N known, i.e. not None), and a stated answer to `association is OBJECT`."""
+    v = fl.params[1]
+    L = {f"len({v})", f"{v}.shape[0]"}
+    N = {"self.n_values"}
+    order = {  # operator -> truth under (L < N, L == N, L > N)
+        ast.Lt: (True, False, False), ast.LtE: (True, True, False), ast.Eq: (False, True, False),
+        ast.NotEq: (True, False, True), ast.GtE: (False, True, True), ast.Gt: (False, False, True),
+    }
+    flip = {ast.Lt: ast.Gt, ast.LtE: ast.GtE, ast.Gt: ast.Lt, ast.GtE: ast.LtE, ast.Eq: ast.Eq, ast.NotEq: ast.NotEq}
+
+    def atom(e, case, is_object):
+        if not (isinstance(e, ast.Compare) and len(e.ops) == 1):
+            return None
+        a, b, op = unparse(e.left), unparse(e.comparators[0]), type(e.ops[0])
+        if a in N and b in L and op in flip:
+            a, b, op = b, a, flip[op]
+        if a in L and b in N and op in order:
+            return order[op][case]
+        if op in (ast.Is, ast.IsNot, ast.Eq, ast.NotEq):
+            pos = op in (ast.Is, ast.Eq)
+            if (a in N and b == "None") or (b in N and a == "None"):
+                return not pos  # N is known
+            if (a == "self.association" and b.endswith(".OBJECT")) or (b == "self.association" and a.endswith(".OBJECT")):
+                return None if is_object is None else (is_object if pos else not is_object)
+        return None
+
+    return atom
+
+
 def rule_len(ctx) -> RuleResult:
     res = RuleResult(
         "C07.LEN",
@@ -159,58 +288,77 @@ def rule_len(ctx) -> RuleResult:
     )
     p = ctx.p
     nd = p.cls("NumericData")
-    fl = nd.methods.get("format_length")
-    if fl is None:
+    fl0 = nd.methods.get("format_length")
+    if fl0 is None:
         raise AnalysisError("anchor NumericData.format_length not found")
+    fl = ctx.view(fl0)
     v = fl.params[1]
-    ifs = [i for i in fl.node.body if isinstance(i, ast.If)]
-    lt = [i for i in ifs if isinstance(i.test, ast.Compare) and isinstance(i.test.ops[0], ast.Lt) and f"len({v})" in unparse(i.test.left) and "n_values" in unparse(i.test)]
-    ok = False
-    if lt:
-        body = ast.Module(body=lt[0].body, type_ignores=[])
-        rets = [r for r in ast.walk(body) if isinstance(r, ast.Return)]
-        defs = {}
-        for a in ast.walk(body):
-            if isinstance(a, ast.Assign) and isinstance(a.targets[0], ast.Name):
-                defs[a.targets[0].id] = a.value
-        for r in rets:
-            src = defs.get(r.value.id) if isinstance(r.value, ast.Name) else r.value
-            txt = unparse(src) if src is not None else ""
-            ok = "self.nan_value" in txt and "zeros" not in txt and "self.n_values" in txt
+    g = CFG(fl.node)
+    defs = name_defs(fl.node)
+    atom = _length_scenarios(fl)
+
+    def outcomes(case, is_object):
+        """(returned expressions, raise nodes, undecided condition leaves) of the paths possible in the scenario."""
+        undecided = []
+
+        def ev(t):
+            t = xp(t, fl.node)
+            a = lambda e: atom(e, case, is_object)  # noqa: E731
+            val = tv3(t, a)
+            if val is None:
+                undecided.extend(unparse(u) for u in unknown_leaves(t, a))
+            return val
+
+        seen = reach3(g, [g.entry], ev)
+        rets = [n.ast if n.ast is not None else ast.Constant(value=None) for n in seen if n.kind == "return"]
+        if falls_off(g, seen):
+            rets.append(ast.Constant(value=None))
+        return rets, [n for n in seen if n.kind == "raise"], sorted(set(undecided))
+
+    def padded(e):
+        cands = real_defs(defs, e.id) if isinstance(e, ast.Name) else [e]
+        texts = [xt(c, fl.node) for c in cands]
+        return bool(texts) and all("self.nan_value" in t and "zeros" not in t and "self.n_values" in t for t in texts)
+
+    # shorter: every possible outcome returns an array of n_values entries filled with self.nan_value
+    rets, _, _ = outcomes(0, None)
+    ok = bool(rets) and all(padded(r) for r in rets)
     res.inst("format_length: shorter -> array of n_values filled with self.nan_value", nontrivial=True, ok=ok)
     if not ok:
         res.find("NumericData", "format_length", "short arrays are not padded with self.nan_value to n_values", fl.where,
                  "shorter arrays are padded with something else than the no-data value (or not padded): gaps read as real values")
-    gt = [i for i in ifs if any(isinstance(c, ast.Compare) and isinstance(c.ops[0], ast.Gt) and f"len({v})" in unparse(c.left) for c in ast.walk(i.test))]
-    ok = bool(gt) and all(any(isinstance(s, ast.Raise) for s in i.body) for i in gt)
+    # longer, not object-associated: refused on every path
+    rets, raises, undecided = outcomes(2, False)
+    ok = bool(raises)
     res.inst("format_length: longer -> raise (unless OBJECT association)", nontrivial=True, ok=ok)
     if not ok:
         res.find("NumericData", "format_length", "longer arrays are not refused", fl.where, "an array longer than the geometry is accepted")
-    if gt:
-        extra = [unparse(x) for x in (gt[0].test.values if isinstance(gt[0].test, ast.BoolOp) else [])]
-        ok = all(("len(" in e) or ("OBJECT" in e) for e in extra)
-        res.inst(f"format_length: the only escape from the refusal is the OBJECT association ({extra})", ok=ok)
+    if raises:
+        ok = not rets
+        res.inst(f"format_length: the only escape from the refusal is the OBJECT association ({undecided})", ok=ok)
         if not ok:
-            res.find("NumericData", "format_length", f"refusal weakened by {extra}", fl.where, "longer arrays are accepted for vertex / cell data")
-    last = fl.node.body[-1]
-    ok = isinstance(last, ast.Return) and unparse(last.value) == v
+            res.find("NumericData", "format_length", f"refusal weakened by {undecided}", fl.where, "longer arrays are accepted for vertex / cell data")
+    # equal: the argument is handed back
+    rets, raises, _ = outcomes(1, None)
+    ok = bool(rets) and not raises and all(xt(r, fl.node) == v for r in rets)
     res.inst("format_length: equal -> values unchanged", ok=ok)
     if not ok:
         res.find("NumericData", "format_length", "fall-through does not return the values unchanged", fl.where, "correctly sized arrays are altered")
-    fv = nd.methods["format_values"]
+    fv = ctx.view(nd.methods["format_values"])
     g = CFG(fv.node)
     calls = lambda name: (lambda n: has_call(n, lambda c: unparse(c.func) == f"self.{name}"))  # noqa: E731
-    none_tests = [n for n in g.nodes if n.kind == "test" and unparse(n.ast) == f"{fv.params[1]} is None"]
-    starts = [m for t in none_tests for m, l in t.succ if l == "false"] or [g.entry]
+    arg = fv.params[1]
     for name in ("format_length", "format_type"):
-        ok = g.exit not in reach(g, starts, avoid=calls(name))
+        # paths on which the argument is not None (the `is None` tests are decided, whatever their polarity / nesting)
+        ok = g.exit not in reach(g, [g.entry], var=arg, facts={"notnone:" + arg: True}, avoid=calls(name))
         res.inst(f"format_values: every path with values calls self.{name}", nontrivial=True, ok=ok)
         if not ok:
             res.find("NumericData", "format_values", f"a path with values skips self.{name}", fv.where,
                      "values can be stored without the length / type coercion")
-    for acc, fnx in (("setter", nd.props["values"].setter), ("getter", nd.props["values"].getter)):
-        stores = [a for a in ast.walk(fnx.node) if isinstance(a, ast.Assign) and unparse(a.targets[0]) == "self._values"]
-        ok = bool(stores) and all(unparse(a.value).startswith("self.format_values(") for a in stores)
+    for acc, fnx0 in (("setter", nd.props["values"].setter), ("getter", nd.props["values"].getter)):
+        fnx = ctx.view(fnx0)
+        stores = [a for a in ast.walk(fnx.node) if isinstance(a, ast.Assign) and any(unparse(t) == "self._values" for t in a.targets)]
+        ok = bool(stores) and all(xt(a.value, fnx.node).startswith("self.format_values(") for a in stores)
         res.inst(f"NumericData.values {acc} stores only self.format_values(...)", ok=ok)
         if not ok:
             res.find("NumericData", "values", f"{acc} stores {[unparse(a.value)[:40] for a in stores]}", fnx.where, "raw values bypass padding / refusal / coercion")
@@ -219,6 +367,7 @@ def rule_len(ctx) -> RuleResult:
 
 ORDER_INSENSITIVE_CALLS = {"np.delete", "np.max", "np.min", "np.array", "np.asarray", "np.unique", "np.sort", "len", "isinstance", "np.any", "np.all",
                            "np.atleast_1d", "np.ravel", "np.r_"}
+ORDER_INSENSITIVE_ATTRS = {"max", "min", "any", "all", "size", "shape", "dtype", "ndim"}  # the method / attribute forms of the above
 
 
 def rule_maskonly(ctx) -> RuleResult:
@@ -231,16 +380,22 @@ def rule_maskonly(ctx) -> RuleResult:
         floor=3,
     )
     p = ctx.p
-    for fn in _targets(p):
+    for fn0 in _targets(p):
+        fn = ctx.view(fn0)
         idx = fn.params[1]
+        # the raw list under all its names: copies and element-for-element conversions of the parameter
+        raw, _ = derived_names(fn.node, idx, KEEP_ORDER)
         parents = {}
         for n in ast.walk(fn.node):
             for c in ast.iter_child_nodes(n):
                 parents[c] = n
-        uses = [n for n in ast.walk(fn.node) if isinstance(n, ast.Name) and n.id == idx and isinstance(n.ctx, ast.Load)]
+        uses = [n for n in ast.walk(fn.node) if isinstance(n, ast.Name) and n.id in raw and isinstance(n.ctx, ast.Load)]
         bad = []
-        for u in uses:
-            par = parents.get(u)
+        for use in uses:
+            # the consumer of the value: a conditional expression choosing the list hands it on unchanged
+            u, par = use, parents.get(use)
+            while isinstance(par, ast.IfExp) and par.test is not u:
+                u, par = par, parents.get(par)
             ok = False
             if isinstance(par, ast.Call):
                 f = unparse(par.func)
@@ -255,6 +410,12 @@ def rule_maskonly(ctx) -> RuleResult:
                 ok = True
             elif isinstance(par, ast.keyword):
                 ok = True
+            elif isinstance(par, (ast.Assign, ast.AnnAssign)) and par.value is u and all(
+                    isinstance(t, ast.Name) and t.id in raw for t in (par.targets if isinstance(par, ast.Assign) else [par.target])):
+                # another name for the same list: its uses are examined as well
+                ok = True
+            elif isinstance(par, ast.Attribute) and par.value is u and par.attr in ORDER_INSENSITIVE_ATTRS:
+                ok = True
             if not ok:
                 bad.append((u, par))
         res.inst(f"{fn.qualname}: {len(uses)} uses of `{idx}`, order-sensitive: {len(bad)}", nontrivial=True, ok=not bad)
@@ -265,6 +426,48 @@ def rule_maskonly(ctx) -> RuleResult:
     return res
 
 
+def _mask_decisions(fn, mask):
+    """The two-way decisions of a masked copy: one side hands over `<array>[mask]` as it is (the selected values only), the
+    other side builds a full-length array written through the mask (`<array>[mask] = ...` / np.where(mask, ...)).
+    Yields (test, line)."""
+    node = fn.node
+    is_mask = lambda e: xt(e, node) == mask  # noqa: E731
+
+    def fills(stmts):
+        for s in stmts:
+            for x in ast.walk(s):
+                if isinstance(x, ast.Subscript) and isinstance(x.ctx, ast.Store) and is_mask(x.slice):
+                    return True
+                if isinstance(x, ast.Call) and fname(x) in ("np.where", "numpy.where", "np.putmask", "np.place") and any(is_mask(a) for a in x.args[:2]):
+                    return True
+        return False
+
+    def selects(stmts):
+        return any(isinstance(x, ast.Subscript) and isinstance(x.ctx, ast.Load) and is_mask(x.slice) for s in stmts for x in ast.walk(s))
+
+    def sides(a, b):
+        return (selects(a) and not fills(a) and fills(b)) or (selects(b) and not fills(b) and fills(a))
+
+    out = []
+    for blk_owner in ast.walk(node):
+        for fld in ("body", "orelse", "finalbody"):
+            blk = getattr(blk_owner, fld, None)
+            if not (isinstance(blk, list) and blk and isinstance(blk[0], ast.stmt)):
+                continue
+            for i, s in enumerate(blk):
+                if not isinstance(s, ast.If):
+                    continue
+                other = s.orelse
+                if not other and s.body and isinstance(s.body[-1], (ast.Return, ast.Raise, ast.Continue, ast.Break)):
+                    other = blk[i + 1:]  # guard-clause form: the rest of the block is the other side
+                if other and sides(s.body, other):
+                    out.append((s.test, s.lineno, s))
+    for x in ast.walk(node):
+        if isinstance(x, ast.IfExp) and sides([x.body], [x.orelse]):
+            out.append((x.test, x.lineno, x))
+    return out
+
+
 def rule_count(ctx) -> RuleResult:
     res = RuleResult(
         "C07.COUNT",
@@ -273,27 +476,24 @@ def rule_count(ctx) -> RuleResult:
         "outside the mask is decided by the TARGET's element count of the data's association (parent.n_cells / n_vertices)",
         floor=1,
     )
-    p = ctx.p
-    fn = p.func("Data.copy")
+    fn = ctx.view("Data.copy")
     par = fn.params[1]
-    sub = [i for i in ast.walk(fn.node) if isinstance(i, ast.If) and any("[mask]" in unparse(s_) and "values" in unparse(s_) for s_ in i.body) and i.orelse]
+    if "mask" not in fn.params + [a.arg for a in fn.node.args.kwonlyargs]:
+        raise AnalysisError("Data.copy: parameter `mask` not found")
+    sub = _mask_decisions(fn, "mask")
     if not sub:
         raise AnalysisError("Data.copy: subset / fill decision not found")
-    for i in sub:
-        defs = {}
-        for a in ast.walk(fn.node):
-            if isinstance(a, ast.Assign) and isinstance(a.targets[0], ast.Name):
-                defs[a.targets[0].id] = a.value
-        leaves = set()
-        for n in ast.walk(i.test):
-            if isinstance(n, ast.Name) and n.id in defs:
-                leaves |= {unparse(x) for x in ast.walk(defs[n.id]) if isinstance(x, ast.Attribute)}
-            elif isinstance(n, ast.Attribute):
-                leaves.add(unparse(n))
+    encl = enclosing_ifs(fn.node)
+    for test, lineno, at in sub:
+        # what the decision depends on: the attribute reads in the condition, in the bindings of its locals and in the
+        # conditions that choose between those bindings (not the guards the decision itself sits under)
+        leaves = {xt(ast.parse(x, mode="eval").body, fn.node) for x in dependence_leaves(test, fn.node, outside=encl.get(id(at), []))}
+        leaves |= {unparse(x) for x in ast.walk(xp(test, fn.node)) if isinstance(x, ast.Attribute)}
         ok = {f"{par}.n_cells", f"{par}.n_vertices"} <= leaves and any("association" in x for x in leaves)
-        res.inst(f"Data.copy: subset-vs-fill test `{unparse(i.test)[:50]}` depends on {sorted(x for x in leaves if par in x or 'association' in x)}", nontrivial=True, ok=ok)
+        shown = xt(test, fn.node)[:50]
+        res.inst(f"Data.copy: subset-vs-fill test `{shown}` depends on {sorted(x for x in leaves if par in x or 'association' in x)}", nontrivial=True, ok=ok)
         if not ok:
-            res.find("Data", "copy", f"subset-vs-fill decision `{unparse(i.test)[:50]}` ignores the target's element count", f"{fn.module.relpath}:{i.lineno}",
+            res.find("Data", "copy", f"subset-vs-fill decision `{shown}` ignores the target's element count", f"{fn.module.relpath}:{lineno}",
                      "whether the masked values must be compacted or kept full-length depends on how many vertices / cells the TARGET has; "
                      "a test that does not look at it misplaces the values for some targets (length right, values on the wrong elements)")
     return res
